@@ -189,3 +189,37 @@ func (e *Exec) trackedGhost(st *State, name string) (Val, bool) {
 	}
 	return Val{}, false
 }
+
+// builtinSiteChecks: call-site clauses keyed by a builtin (`callsite panic name: P` states when a panic statement
+// may be reached; arg0 is the value panicked with).
+func (e *Exec) builtinSiteChecks(st *State, key string, args []Val, x *ast.CallExpr) {
+	if x == nil || e.suppressSites() || e.inContract > 0 || st.dead {
+		return
+	}
+	fc := e.frames[0].contract
+	if fc == nil {
+		return
+	}
+	for _, c := range fc.Sites {
+		if c.LoopKey != key || c.Kind != "callsite" {
+			continue
+		}
+		extra := map[string]Val{}
+		for i, a := range args {
+			// the builtin takes `any`: the clause sees the boxed value (unbox(arg0, T) / dyntype(arg0, T))
+			extra[fmt.Sprintf("arg%d", i)] = e.convertTo(st, a, types.Universe.Lookup("any").Type())
+		}
+		extra["idx"] = Val{T: IntLit(-1), GT: types.Typ[types.Int]}
+		if n := len(e.idxStack); n > 0 {
+			if v, ok := st.vars[e.idxStack[n-1]]; ok {
+				extra["idx"] = v
+			}
+		}
+		env := e.loopEnv(st, x.Pos(), extra)
+		g := e.evContract(st, c.Expr, env)
+		name := fmt.Sprintf("%s#callsite:%s.%s@%s", e.fnName, key, c.Name, e.relLine(x.Pos()))
+		if o := e.oblige(st, name, "callsite", c.Props, g, x.Pos()); o != nil {
+			o.Clause = c.Src
+		}
+	}
+}
